@@ -27,7 +27,7 @@ import time
 
 import vlib
 
-PLAN_VERSION = "lfhtc-9"
+PLAN_VERSION = "lfhtc-10"
 
 # ---- theorem lists (fill from Props/*.lean at integration; names are fully qualified) -----------------------------
 THEOREMS05 = ['UrcuVerif.Lfht.Conc.C05_partial_holds',
@@ -310,6 +310,29 @@ def jobs_solo(rng, seed, n, seed_base=0):
     return js
 
 
+# minimal same-node contention scripts: 2-3 threads remove / replace the SAME node; run under many high-preemption random and
+# PCT schedules (windows that need two or more preemptions, e.g. both removers between their last load and their owner update)
+CONTEND = [
+    ("del2", ["--pre", "u3", "--script", "1:L3+D;2:L3+D", "--resizes", 0]),
+    ("del3", ["--threads", 3, "--pre", "u3", "--script", "1:L3+D;2:L3+D;3:L3+D", "--resizes", 0]),
+    ("del-del-replace", ["--threads", 3, "--pre", "u3", "--script", "1:L3+D;2:L3+D;3:L3+R3", "--resizes", 0]),
+    ("del-replace-addreplace", ["--threads", 3, "--pre", "u3", "--script", "1:L3+D;2:L3+R3;3:p3", "--resizes", 0]),
+    ("del2-dups", ["--threads", 3, "--pre", "a0,a0", "--script", "1:L0+D;2:L0+D;3:L0+D,w0", "--resizes", 0]),
+]
+
+
+def jobs_contend(seed, n, seed_base=0):
+    js = []
+    for name, sargs in CONTEND:
+        for k in range(n):
+            if k % 3 == 2:
+                st = ["--strategy", "pct", "--pctd", 3 + k % 2, "--pctlen", [60, 120, 250][(k // 3) % 3]]
+            else:
+                st = ["--pswitch", [40, 50, 60, 75][k % 4]]
+            js.append(("contend/" + name, ["--seed", seed * 100000 + seed_base + 6000 + k, "--keys", 4, "--small"] + list(sargs) + st))
+    return js
+
+
 def jobs_big(rng, seed):
     """16384-bucket tables (order allocator): the levels of 8192 buckets are populated / removed by partition threads of
     partition_resize_helper (real MIN_PARTITION_PER_THREAD_ORDER) while the workers run; the model replays spawn / join"""
@@ -418,6 +441,8 @@ def batch(seed, tier):
         nrand = len(res)
         res += run_jobs(jobs_solo(rng, seed, 40 if quick else 600))
         nsolo = len(res) - nrand
+        ct = run_jobs(jobs_contend(seed, 120 if quick else 1500))
+        res += ct
         sw = run_jobs(jobs_sweep(2 if quick else 1))
         res += sw
         nbig = 0
@@ -425,7 +450,7 @@ def batch(seed, tier):
             bg = run_jobs(jobs_big(rng, seed))
             nbig = len(bg)
             res += bg
-        b = {"results": res, "n_random": nrand, "n_solo": nsolo, "n_sweep": len(sw), "n_big": nbig, "wall_s": round(time.time() - t0, 1),
+        b = {"results": res, "n_random": nrand, "n_solo": nsolo, "n_sweep": len(sw), "n_contend": len(ct), "n_big": nbig, "wall_s": round(time.time() - t0, 1),
              "cached": False, "key": key}
         for old in os.listdir(vlib.BUILD):      # keep the build directory small
             if old.startswith("lfhtc_cache_") and old != os.path.basename(cpath):
@@ -501,7 +526,8 @@ RULE = ("schedules of harness/scen/lfht_conc.c (the real src/rculfhash.c + src/u
         "cds_lfht_resize (grow and shrink, init 1-8, min_alloc 1-8, max 4-64), automatic growth through the work-queue thread, the three "
         "allocators; drawn from VERIF_SEED with random walk (switch probabilities 3-85 %), PCT (1-4 change points) and the systematic "
         "one-preemption sweep (seed-independent) over 22 directed two/three-thread scripts (del/del, del/replace, replace/replace, "
-        "add_unique/add_unique, add_replace races, duplicates, and the same against grow / shrink); every event replayed on the proven "
+        "add_unique/add_unique, add_replace races, duplicates, and the same against grow / shrink) and 5 minimal same-node contention "
+        "scripts (2-3 threads del / replace / add_replace the SAME node) under many high-preemption random and PCT schedules; every event replayed on the proven "
         "model by Driver/LfhtConc.lean, history judged by the scenario's independent oracles; ")
 
 
@@ -514,7 +540,7 @@ def evaluate(chk, pid, own, b):
     if pid == "C17":
         results = [r for r in results if r["config"].startswith("solo/")]
     chk.cov["lfht_shared_batch" if pid == "C17" else "shared_batch"] = {"key": b.get("key"), "reused_cached_runs": bool(b.get("cached")), "batch_wall_s": b.get("wall_s"),
-                               "random": b.get("n_random"), "solo": b.get("n_solo"), "sweep": b.get("n_sweep"), "big": b.get("n_big", 0)}
+                               "random": b.get("n_random"), "solo": b.get("n_solo"), "sweep": b.get("n_sweep"), "contend": b.get("n_contend", 0), "big": b.get("n_big", 0)}
     sm = summarize(pid, results, chk.tier)
     if sm["missing"]:
         # coverage gap: escalate (more seeds, then the dense sweep of every script); never a violation by itself
@@ -574,7 +600,8 @@ def search(chk, own):
     import random
     rng = random.Random(chk.seed * 31 + 5)
     quick = chk.tier == "quick"
-    js = jobs_random(rng, chk.seed, 150 if quick else 1200, seed_base=50000) + jobs_solo(rng, chk.seed, 30, seed_base=50000) + jobs_sweep(1)
+    js = jobs_contend(chk.seed, 800 if quick else 4000, seed_base=50000) + jobs_random(rng, chk.seed, 150 if quick else 1200, seed_base=50000) + \
+        jobs_solo(rng, chk.seed, 30, seed_base=50000) + jobs_sweep(1)
     with concurrent.futures.ThreadPoolExecutor(max_workers=max(2, vlib.NCPU // 2)) as ex:
         for r in ex.map(lambda j: j[2] if (len(j) > 2 and j[2] is not None) else one(j[0], j[1]), js):
             if r["verdict"] == "oracle" and any(k in own for k in r["kinds"]):
